@@ -158,6 +158,14 @@ def compare(u, b, strict_text, notes, path="r", promo_ok=False, narrow=None):
             if wrapped:
                 notes.add("numpy-integer-wraparound-avoided-by-float-promotion" if ua.dtype.kind == "f" else "numpy-integer-wraparound-avoided-by-wider-integer")
                 return None
+            # NumPy defines integer x % 0 and x // 0 as 0; the promoted float computation gives nan / +-inf (IEEE) at exactly
+            # those positions: same computation without the integer convention (quick seed-5 alarm on `int_quantity % 0`)
+            if ua.dtype.kind == "f":
+                with np.errstate(all="ignore"):
+                    bad = ~np.isfinite(uf)
+                    if bool(bad.any()) and bool(np.all(ba[bad] == 0)) and bool(np.array_equal(uf[~bad], ba.astype("f8")[~bad])):
+                        notes.add("numpy-integer-division-by-zero-convention-vs-ieee-after-float-promotion")
+                        return None
         if ua.dtype != ba.dtype:
             notes.add(f"dtype-width:{ua.dtype}!={ba.dtype}")
             if narrow is None and ua.dtype.kind in "fc" and ba.dtype.kind in "fc" and min(_eps_of(ua.dtype), _eps_of(ba.dtype)) < max(_eps_of(ua.dtype), _eps_of(ba.dtype)):
